@@ -1,3 +1,67 @@
+//! C07: call sequences with boundary values.  Every call runs under catch_unwind; a hang is
+//! caught by the parent's watchdog (the whole scenario is then recorded as a time-out).
+use crate::canvas::{annot, apply_call, parse_path};
+use crate::util::*;
+use raqote::*;
 use serde_json::{json, Value};
-pub fn run(sc: &Value) -> Value { json!({"id": sc["id"], "outcome": "unimplemented"}) }
-pub fn drive(_seed: u64, _n: usize) -> Vec<Value> { Vec::new() }
+
+pub fn run(sc: &Value) -> Value {
+    let w = int(&sc["w"]);
+    let h = int(&sc["h"]);
+    let den = den_of(sc, "den", 1.0);
+    let mut outcomes: Vec<Value> = Vec::new();
+    let mut calls_echo: Vec<Value> = Vec::new();
+    let created = std::panic::catch_unwind(|| DrawTarget::new(w, h));
+    let mut dt = match created {
+        Ok(dt) => dt,
+        Err(e) => {
+            return json!({"id": sc["id"], "fam": "boundary", "w": w, "h": h, "outcome": "panic", "calls": [],
+                          "outcomes": [{"op": "new", "outcome": "panic", "msg": crate::panic_msg(&e)}]})
+        }
+    };
+    let mut clip_depth = 0i32;
+    let mut layer_depth = 0i32;
+    let mut overall = "ok";
+    for c in sc["calls"].as_array().unwrap() {
+        let op = c["op"].as_str().unwrap();
+        // pops must match pushes (outside the domain otherwise)
+        if (op == "pop_clip" && clip_depth == 0) || (op == "pop_layer" && layer_depth == 0) {
+            continue;
+        }
+        let r = std::panic::catch_unwind(std::panic::AssertUnwindSafe(|| match op {
+            // path-level calls that are not DrawTarget methods
+            "contains" => {
+                let p = parse_path(&c["path"], den);
+                let _ = p.contains_point(num(&c["tol"]), num(&c["x"]), num(&c["y"]));
+            }
+            "flatten" => {
+                let p = parse_path(&c["path"], den);
+                let _ = p.flatten(num(&c["tol"]));
+            }
+            _ => apply_call(&mut dt, c, den),
+        }));
+        calls_echo.push(annot(c));
+        match r {
+            Ok(_) => {
+                outcomes.push(json!({"op": op, "outcome": "ok"}));
+                match op {
+                    "push_clip_rect" | "push_clip" => clip_depth += 1,
+                    "pop_clip" => clip_depth -= 1,
+                    "push_layer" => layer_depth += 1,
+                    "pop_layer" => layer_depth -= 1,
+                    _ => {}
+                }
+            }
+            Err(e) => {
+                outcomes.push(json!({"op": op, "outcome": "panic", "msg": crate::panic_msg(&e)}));
+                overall = "panic";
+                break; // the target may be left inconsistent by the unwinding
+            }
+        }
+    }
+    json!({"id": sc["id"], "fam": "boundary", "w": w, "h": h, "outcome": overall, "calls": calls_echo, "outcomes": outcomes})
+}
+
+pub fn drive(_seed: u64, _n: usize) -> Vec<Value> {
+    Vec::new()
+}
